@@ -89,16 +89,33 @@ func c14Run(c *fw.Case, setting string, unset bool, lists [][]string) {
 		}
 	}
 	for i, groups := range lists {
-		pairs := []string{"name", "alice", "email", "alice@example.org"}
-		if groups != nil {
-			pairs = append(pairs, "groups", strings.Join(groups, ";"))
+		// which claims the token carries: a user token (name), a service-account token (preferred_username only),
+		// both, or nothing but the groups
+		var pairs []string
+		shape := (i + len(setting)) % 4
+		switch shape {
+		case 0:
+			pairs = []string{"name", "alice", "email", "alice@example.org"}
+		case 1:
+			pairs = []string{"preferred_username", "service-account-x"}
+		case 2:
+			pairs = []string{"preferred_username", "alice", "name", "Alice A", "email", "alice@example.org"}
 		}
+		joined := strings.Join(groups, ";")
+		if groups != nil {
+			pairs = append(pairs, "groups", joined)
+		}
+		c.Distinct("identity_shape", fmt.Sprintf("claims=%d groups=%v", shape, groups != nil))
 		ctx := metadata.NewIncomingContext(context.Background(), metadata.Pairs(pairs...))
 		want := false
 		for _, g := range groups {
 			if admins[g] {
 				want = true
 			}
+		}
+		if shape == 3 && joined == "" {
+			want = true // no identity metadata at all: the request is not an authenticated one
+			c.Count("sets_without_identity", 1)
 		}
 		tx, err, returned := trySet(w, ctx, engineSet("t1", "/foo", fmt.Sprintf("v%d", i)))
 		c.Count("authenticated_sets", 1)
@@ -111,7 +128,7 @@ func c14Run(c *fw.Case, setting string, unset bool, lists [][]string) {
 			if want {
 				kind = "refused-despite-admin-group"
 			}
-			c.Violate("rbac", "rbac/"+kind, fmt.Sprintf("ADMINGROUPS=%q (unset=%v), caller groups %q: transaction logged=%v, answer %v; exact membership says allowed=%v", setting, unset, groups, allowed, err, want), nil)
+			c.Violate("rbac", "rbac/"+kind, fmt.Sprintf("ADMINGROUPS=%q (unset=%v), identity metadata %q, caller groups %q: transaction logged=%v, answer %v; exact membership says allowed=%v", setting, unset, pairs, groups, allowed, err, want), nil)
 			return
 		}
 		if !allowed && (!returned || err == nil) {
@@ -289,7 +306,7 @@ func c13Run(c *fw.Case, n int) {
 		badKind := ""
 		if r.Chance(3, 5) {
 			badAt = r.Intn(nOps)
-			badKind = []string{"unknown-target", "no-plugin", "non-model-path", "read-only-path", "key-mismatch", "bad-key-chars", "key-equals-other-index", "key-equals-other-index"}[r.Intn(8)]
+			badKind = []string{"unknown-target", "no-plugin", "non-model-path", "read-only-path", "key-mismatch", "bad-key-chars", "key-equals-other-index", "key-equals-other-index", "non-leaf-path", "non-leaf-path"}[r.Intn(10)]
 		}
 		var commonPrefix refmodel.Path
 		if r.Chance(1, 3) {
@@ -366,6 +383,20 @@ func c13Run(c *fw.Case, n int) {
 							op.elems = refmodel.MustParse("/c/m[k1=7][k2=9]/k2")
 							op.val = refmodel.S("7")
 						}
+					}
+				case "non-leaf-path":
+					// a scalar written to a container or a list entry: the path is a proper prefix, at an element
+					// boundary, of writable leaves, but is not a writable path itself
+					op.kind = []string{"update", "replace"}[r.Intn(2)]
+					switch commonPrefix.String() {
+					case "/a":
+						op.elems = refmodel.MustParse([]string{"/a", "/a/d"}[r.Intn(2)])
+					case "/c":
+						op.elems = refmodel.MustParse([]string{"/c", "/c/l[k=x]", "/c/m[k1=1][k2=2]", "/c/l[k=x]/sub"}[r.Intn(4)])
+					case "/c/l[k=x]":
+						op.elems = refmodel.MustParse([]string{"/c/l[k=x]", "/c/l[k=x]/sub", "/c/l[k=x]/in[id=1]"}[r.Intn(3)])
+					default:
+						op.elems = refmodel.MustParse([]string{"/a", "/a/d", "/cont", "/c/l[k=x]", "/c/l[k=x]/sub", "/c/m[k1=1][k2=2]", "/ab", "/t"}[r.Intn(8)])
 					}
 				case "bad-key-chars":
 					if prefixLen > 0 && commonPrefix.String() != "/c" {
@@ -520,7 +551,7 @@ func c13Run(c *fw.Case, n int) {
 func init() {
 	fw.Register(&fw.Check{ID: "C13", Level: "exploration",
 		Technique:   "runtime monitoring: PRNG Set requests mixing valid and one invalid operation through the real handler; refusal oracle = error returned, log length and configuration versions unchanged; acceptance oracle = logged (target, path, op, value) set vs reference addressing rules (prefix target wins, prefix elems + path elems, key-leaf delete addresses the entry, deletes before updates)",
-		Rule:        "each case = 60 requests under one GNMI_SET_SIZE_LIMIT in {0,1,2,5,50}; invalid kinds: unknown target, target without plugin, non-model path, read-only path, key leaf contradicting its key, illegal key characters, malformed extension, no operations, limit exceeded; distinct_nontrivial = distinct request shapes (refusal reason x prefix target x prefix elems x limit)",
+		Rule:        "each case = 60 requests under one GNMI_SET_SIZE_LIMIT in {0,1,2,5,50}; invalid kinds: unknown target, target without plugin, non-model path, read-only path, key leaf contradicting its key (or equal to another index), a scalar written to a container / list-entry path, illegal key characters, malformed extension, no operations, limit exceeded; distinct_nontrivial = distinct request shapes (refusal reason x prefix target x prefix elems x limit)",
 		Assumptions: []string{"handlers are called without controllers: an accepted request is recognised by its logged transaction and released by cancelling its context"},
 		DistinctSet: "request_shape", CaseTimeout: 300e9,
 		Floors: map[string]int64{"set_requests": 5000, "requests_that_must_be_refused": 2000, "requests_that_must_be_accepted": 1000},
